@@ -135,6 +135,8 @@ def reproduces(violation, res):
         bad, log = run_miri(res['path'])
         res['out'] = (res.get('out') or '') + '\n--- miri ---\n' + log
         return bad
+    if k == 'hang':
+        return 'HANG' in (res.get('out') or '')
     if k == 'blocking' or k == 'bound':
         return res['hung']
     return False
